@@ -3569,6 +3569,11 @@ def check_C20(tier, seed):
     o6, r6 = mk(L(1, St('two'), 3.5), 120)
     seq(*[(o, None) for o in o6], ('evaleach:%d:1' % r6, 'u'), ('eq:1:%d' % r6, 'b0'), ('int:99:2', 'u'), ('push:1:2', 'u'), ('show:%d' % r6, 'v' + hx('(1 "two" 3.5)')), ('show:1', 'v' + hx('(1 "two" 3.5 99)')),
         ('nil:3', 'u'), ('evaleach:3:4', 'u'), ('push:4:2', 'u'), ('show:3', 'v' + hx('nil')), ('show:4', 'v' + hx('(99)')), ('evaleach:%d:5' % r6, 'u'), ('show:5', 'v' + hx('(1 "two" 3.5)')))
+    o7, r7 = mk(L(1, 2, 3), 140)
+    seq(*[(o, None) for o in o7], ('evals:%s:1' % hx("(setq dcount 0)"), 'u'), ('evals:%s:2' % hx("'(progn (setq dcount (+ dcount 1)) 1+)"), 'u'), ('ctxmap:2:%d:3' % r7, 'u'), ('show:3', 'v' + hx('(2 3 4)')),
+        ('evals:%s:4' % hx('dcount'), 'u'), ('show:4', 'v' + hx('1')), ('nil:5', 'u'), ('ctxmap:2:5:6', 'u'), ('evals:%s:7' % hx('dcount'), 'u'), ('show:7', 'v' + hx('2')),
+        ('evals:%s:8' % hx("'(progn (setq dcount (+ dcount 10)) +)"), 'u'), ('int:0:9', 'u'), ('ctxreduce:8:%d:9:10' % r7, 'u'), ('show:10', 'v' + hx('6')), ('evals:%s:11' % hx('dcount'), 'u'), ('show:11', 'v' + hx('12')),
+        ('sym:%s:12' % hx('no-such-fn'), 'u'), ('ctxmap:12:5:13', 'e'), ('ctxfilter:12:5:13', 'e'))
     xc = Case('extras')
     for ops, _ in ex_cases: xc.lines.append('api ' + ' '.join(ops)); xc.nreq += 1
     xo = core.run_side(core.TLIMPL_DEBUG, [xc], announce=True).get('extras', [])
@@ -3601,7 +3606,12 @@ def check_C20(tier, seed):
             ('(defun hc () (host-collect 1 "two" 3.0)) (list (hc) (hc) (hc))', '((1 "two" 3.0 99) (1 "two" 3.0 99) (1 "two" 3.0 99))', '-'),
             ("(defun hc0 () (host-collect)) (list (hc0) (hc0))", '((99) (99))', '-'),
             ("(setq form '(host-collect 1 :k nil t)) (list (eval form) (eval form) form)", '((1 :k nil t 99) (1 :k nil t 99) (host-collect 1 :k nil t))', '-'),
-            ("(setq q 5) (defun hq () (host-collect q 'a (tick 4 2))) (list (hq) (hq))", '((5 a 2 99) (5 a 2 99))', '4:2,4:2')]):
+            ("(setq q 5) (defun hq () (host-collect q 'a (tick 4 2))) (list (hq) (hq))", '((5 a 2 99) (5 a 2 99))', '4:2,4:2'),
+            # map / filter / reduce resolve the function designator ONCE, before the first element, also for an empty sequence
+            ("(setq step (lambda (x) (setq step (lambda (y) (* 100 y))) x)) (list (seq-map 'step '(1 2 3)) (funcall step 1))", '((1 2 3) 100)', '-'),
+            ("(setq keep (lambda (x) (setq keep (lambda (y) nil)) t)) (seq-filter 'keep '(1 2 3))", '(1 2 3)', '-'),
+            ("(setq add (lambda (a b) (setq add (lambda (p q) 0)) (+ a b))) (seq-reduce 'add '(1 2 3) 10)", '16', '-'),
+            ("(mapcar 'no-such-function nil)", 'E', '-'), ("(seq-reduce 'no-such-function nil 5)", 'E', '-'), ("(seq-filter 'no-such-function '())", 'E', '-')]):
         c = Case('hm%d' % k); c.eval(text); mc.append((c, want, ticks))
     mo_ = core.run_side(core.TLIMPL_DEBUG, [c for c, _, _ in mc], announce=True)
     for c, want, ticks in mc:
@@ -3611,7 +3621,7 @@ def check_C20(tier, seed):
         if ls:
             _, kind, payload, tk_ = core.parse_line(ls[-1])
             tk_ = '-' if tk_ in (None, '-') else ','.join('%s:%s' % (x.split(':')[0], unhx(x.split(':')[1])) for x in tk_.split(','))
-            ok_ = kind == 'V' and unhx(payload) == want and tk_ == ticks
+            ok_ = (kind == 'E' and tk_ == ticks) if want == 'E' else (kind == 'V' and unhx(payload) == want and tk_ == ticks)
         if not ok_:
             nv += 1
             if nv <= 8: res.violation('api-host-macro', {'requests': c.readable(), 'expected': want, 'expected_ticks': ticks, 'line': decode_line(ls[-1]) if ls else None,
